@@ -385,7 +385,7 @@ int cmdInvestigate(int argc, char** argv) {
   if (expectHash != "-" && std::to_string(o1.hash) != expectHash) { printf("NONDET hash differs from worker: %llu vs %s\n", static_cast<unsigned long long>(o1.hash), expectHash.c_str()); return 3; }
   int execs = 0;
   size_t before = p.ops.size();
-  Plan s = shrinkPlan(h, p, o1, execs, 400);
+  Plan s = shrinkPlan(h, p, o1, execs, o1.cls == "hang" ? 12 : 400);    // every hang candidate costs the whole CPU limit
   Outcome os = runIsolated(h, s);
   if (!sameClass(os, o1)) { s = p; os = o1; }
   writeReplay(argv[7], s, os);
